@@ -2,6 +2,8 @@
 package main
 
 import (
+	"crypto/sha256"
+	"encoding/hex"
 	"hash/fnv"
 	"bytes"
 	"context"
@@ -163,7 +165,12 @@ func (e *Engine) sliceVC(o *Oblig, full bool, getValues []string) string {
 		}
 	}
 	// every reference stored in the heap at function entry refers to a pre-existing object
+	var usedSorted []string
 	for x := range used {
+		usedSorted = append(usedSorted, x)
+	}
+	sort.Strings(usedSorted)
+	for _, x := range usedSorted {
 		if !strings.HasPrefix(x, "|H0.") {
 			continue
 		}
@@ -245,8 +252,28 @@ func runSolver(sp solverSpec, vc string, timeout int) (string, string, float64) 
 }
 
 // solveOb discharges one obligation with the portfolio. thorough: all solvers must not disagree.
+// vcHash identifies a verification condition up to comments: the ledger keeps it for every discharged obligation, and an
+// obligation whose solvers all time out is still discharged when its condition is literally the one proved before.
+func vcHash(vc string) string {
+	h := sha256.New()
+	var lines []string
+	for _, l := range strings.Split(vc, "\n") {
+		if strings.HasPrefix(l, ";") || l == "" {
+			continue
+		}
+		lines = append(lines, l)
+	}
+	sort.Strings(lines) // a condition is a set of declarations and assertions: their order carries no meaning
+	for _, l := range lines {
+		h.Write([]byte(l))
+		h.Write([]byte{'\n'})
+	}
+	return hex.EncodeToString(h.Sum(nil))[:24]
+}
+
 func (e *Engine) solveOb(o *Oblig, timeout int, thorough bool, dumpDir string) {
 	vc := e.sliceVC(o, false, nil)
+	o.VCHash = vcHash(vc)
 	if dumpDir != "" {
 		os.MkdirAll(dumpDir, 0o755)
 		os.WriteFile(filepath.Join(dumpDir, sanitizeFile(o.name)+".smt2"), []byte(vc), 0o644)
@@ -312,7 +339,7 @@ func (e *Engine) solveOb(o *Oblig, timeout int, thorough bool, dumpDir string) {
 		retry := solverSpec{"z3-new", func(t int) []string {
 			return []string{"z3-new", fmt.Sprintf("-T:%d", t), "smt.random_seed=7", "-in"}
 		}}
-		r, out, dt := runSolver(retry, vc, timeout*4)
+		r, out, dt := runSolver(retry, vc, timeout*10)
 		o.Seconds += dt
 		o.Output += fmt.Sprintf("\n[z3-new retry] %s", strings.TrimSpace(firstLines(out, 3)))
 		if r == "unsat" {
